@@ -282,9 +282,42 @@ fn nontrivial(tb: &Tbl) -> bool {
     (n.depth() >= 2 && leaf_quote(&n)) || only_subtables(tb) || aot_in_aot(tb, false)
 }
 
+/// a wide tree: 22..60 tables and array-of-tables elements below the root, few entries each
+fn gen_wide(t: &mut Tape) -> Tbl {
+    let mut root = Tbl::new(TblKind::Std);
+    for _ in 0..t.small(3) {
+        root.entries.push((format!("v{}", root.entries.len()), gen_scalar(t)));
+    }
+    let n = 10 + t.small(20);
+    let mut count = 0;
+    while count < 22 || root.entries.len() < n {
+        let mut k = if t.chance(1, 2) { format!("t{}", root.entries.len()) } else { gen_key(t) };
+        if root.get(&k).is_some() || k.starts_with("$__") {
+            // (an exhausted tape yields the same key again and again)
+            k = format!("t{}", root.entries.len());
+        }
+        let mut budget = 6isize;
+        let node = if t.chance(1, 2) {
+            count += 1;
+            Node::Table(gen_table(t, 4, &mut budget, false))
+        } else {
+            let m = 1 + t.small(6);
+            count += m;
+            Node::Aot((0..m).map(|_| gen_table(t, 4, &mut budget, false)).collect())
+        };
+        root.entries.push((k, node));
+    }
+    root
+}
+
 fn prop(t: &mut Tape, st: &mut Stats) -> Result<(), Failure> {
     let mut budget = 8 + t.below(40) as isize;
-    let tree = gen_table(t, 0, &mut budget, true);
+    let tree = if t.chance(1, 12) {
+        st.class("wide-tree");
+        gen_wide(t)
+    } else {
+        gen_table(t, 0, &mut budget, true)
+    };
     st.eval();
     if nontrivial(&tree) {
         st.nontrivial(model::digest(&Node::Table(tree.clone())));
